@@ -830,4 +830,234 @@ theorem reverseSdOn_correct (L : LawfulOps O) (ops u : OpList) (hwf : wellFormed
 
 end Final
 
+
+/-! ### `list(OrderedDict.fromkeys(operators()))` -/
+
+theorem uniqueOps_ids (ops : OpList) (seen : List Nat) :
+    ((uniqueOps ops seen).map (·.id)).Nodup ∧ ∀ i ∈ (uniqueOps ops seen).map (·.id), i ∉ seen := by
+  induction ops generalizing seen with
+  | nil => simp [uniqueOps]
+  | cons n rest ih =>
+    unfold uniqueOps
+    by_cases h : seen.contains n.id = true
+    · simp only [h, if_true]; exact ih seen
+    · simp only [h, Bool.false_eq_true, if_false]
+      obtain ⟨h1, h2⟩ := ih (n.id :: seen)
+      refine ⟨?_, ?_⟩
+      · simp only [List.map_cons, List.nodup_cons]
+        exact ⟨fun hm => (h2 n.id hm) (by simp), h1⟩
+      · intro i hi
+        simp only [List.map_cons, List.mem_cons] at hi
+        rcases hi with rfl | hi
+        · simpa using h
+        · exact fun hs => h2 i hi (by simp [hs])
+
+theorem uniqueOps_mem_ids (ops : OpList) (seen : List Nat) :
+    ∀ n ∈ ops, n.id ∈ seen ∨ n.id ∈ (uniqueOps ops seen).map (·.id) := by
+  induction ops generalizing seen with
+  | nil => intro n hn; cases hn
+  | cons n rest ih =>
+    intro m hm
+    unfold uniqueOps
+    by_cases h : seen.contains n.id = true
+    · simp only [h, if_true]
+      rcases List.mem_cons.mp hm with rfl | hm'
+      · left; simpa using h
+      · exact ih seen m hm'
+    · simp only [h, Bool.false_eq_true, if_false, List.map_cons, List.mem_cons]
+      rcases List.mem_cons.mp hm with rfl | hm'
+      · right; left; rfl
+      · rcases ih (n.id :: seen) m hm' with h' | h'
+        · simp only [List.mem_cons] at h'
+          rcases h' with h' | h'
+          · right; left; exact h'
+          · left; exact h'
+        · right; right; exact h'
+
+theorem uniqueOps_sub (ops : OpList) (seen : List Nat) : ∀ n ∈ uniqueOps ops seen, n ∈ ops := by
+  induction ops generalizing seen with
+  | nil => intro n hn; simp [uniqueOps] at hn
+  | cons n rest ih =>
+    intro m hm
+    unfold uniqueOps at hm
+    by_cases h : seen.contains n.id = true
+    · simp only [h, if_true] at hm; exact List.mem_cons_of_mem _ (ih seen m hm)
+    · simp only [h, Bool.false_eq_true, if_false, List.mem_cons] at hm
+      rcases hm with rfl | hm
+      · simp
+      · exact List.mem_cons_of_mem _ (ih _ m hm)
+
+theorem operandOk_congr {s1 s2 : List Nat} (hs : ∀ i, i ∈ s1 ↔ i ∈ s2) (o : Operand) :
+    operandOk s1 o = operandOk s2 o := by
+  cases o with
+  | leaf l => rfl
+  | op i =>
+    simp only [operandOk, List.contains_eq_mem]
+    exact decide_eq_decide.mpr (hs i)
+
+theorem uniqueOps_wf (ops : OpList) (s1 s2 : List Nat) (hs : ∀ i, i ∈ s1 ↔ i ∈ s2)
+    (h : wellFormedFrom s1 ops = true) : wellFormedFrom s2 (uniqueOps ops s2) = true := by
+  induction ops generalizing s1 s2 with
+  | nil => simp [uniqueOps, wellFormedFrom]
+  | cons n rest ih =>
+    simp only [wellFormedFrom, Bool.and_eq_true] at h
+    unfold uniqueOps
+    by_cases hc : s2.contains n.id = true
+    · simp only [hc, if_true]
+      refine ih (n.id :: s1) s2 ?_ h.2
+      intro i
+      have hn : n.id ∈ s2 := by simpa using hc
+      simp only [List.mem_cons]
+      constructor
+      · rintro (rfl | hi)
+        · exact hn
+        · exact (hs i).mp hi
+      · intro hi; exact Or.inr ((hs i).mpr hi)
+    · simp only [hc, Bool.false_eq_true, if_false, wellFormedFrom, Bool.and_eq_true]
+      refine ⟨?_, ih (n.id :: s1) (n.id :: s2) ?_ h.2⟩
+      · have := h.1
+        simp only [List.all_eq_true] at this ⊢
+        intro o ho
+        rw [← operandOk_congr hs o]; exact this o ho
+      · intro i; simp only [List.mem_cons, hs i]
+
+/-! ### visiting every operator once gives the same dictionary as visiting every occurrence -/
+
+theorem Alg.operand_congr (A : Alg β) {m1 m2 : List (Nat × β)} (h : ∀ i, m1.lookup i = m2.lookup i) (o : Operand) :
+    A.operand m1 o = A.operand m2 o := by
+  cases o with
+  | leaf l => rfl
+  | op i => simp only [Alg.operand, h]
+
+theorem Alg.node_congr (A : Alg β) {m1 m2 : List (Nat × β)} (h : ∀ i, m1.lookup i = m2.lookup i) (op : PyOp) :
+    A.node m1 op = A.node m2 op := by
+  cases op <;> simp only [Alg.node, A.operand_congr h]
+
+theorem foldAlg_unique (A : Alg β) (ops : OpList) (m1 m2 : List (Nat × β)) (seen : List Nat)
+    (hcons : ∀ a ∈ ops, ∀ b ∈ ops, a.id = b.id → a.op = b.op)
+    (H1 : ∀ i, m1.lookup i = m2.lookup i)
+    (H2 : ∀ i, i ∈ seen ↔ (m2.lookup i).isSome = true)
+    (H3 : ∀ n ∈ ops, n.id ∈ seen → A.node m1 n.op = m1.lookup n.id)
+    (m : List (Nat × β)) (h : foldAlg A ops m1 = some m) :
+    ∃ m', foldAlg A (uniqueOps ops seen) m2 = some m' ∧ ∀ i, m.lookup i = m'.lookup i := by
+  induction ops generalizing m1 m2 seen with
+  | nil =>
+    simp only [foldAlg, Option.some.injEq] at h; subst h
+    exact ⟨m2, rfl, H1⟩
+  | cons n rest ih =>
+    simp only [foldAlg, Option.bind_eq_some_iff] at h
+    obtain ⟨x, hx, h'⟩ := h
+    have hcons' : ∀ a ∈ rest, ∀ b ∈ rest, a.id = b.id → a.op = b.op :=
+      fun a ha b hb => hcons a (by simp [ha]) b (by simp [hb])
+    -- the new entry never changes an existing one
+    have hsame : ∀ y, m1.lookup n.id = some y → y = x := by
+      intro y hy
+      have hs : n.id ∈ seen := (H2 n.id).mpr (by rw [← H1, hy]; rfl)
+      have := H3 n (by simp) hs
+      rw [hx, hy] at this
+      exact (Option.some.inj this).symm
+    have hext : ∀ j, (m1.lookup j).isSome = true → ((n.id, x) :: m1).lookup j = m1.lookup j := by
+      intro j hj
+      by_cases e : j = n.id
+      · subst e
+        obtain ⟨y, hy⟩ := Option.isSome_iff_exists.mp hj
+        rw [lookup_cons_self, hy, hsame y hy]
+      · exact lookup_cons_ne j n.id x m1 e
+    have hold : ∀ n' ∈ rest, n'.id ∈ seen →
+        A.node ((n.id, x) :: m1) n'.op = ((n.id, x) :: m1).lookup n'.id := by
+      intro n' hn' hs
+      have hsome : (m1.lookup n'.id).isSome = true := by rw [H1]; exact (H2 _).mp hs
+      obtain ⟨y, hy⟩ := Option.isSome_iff_exists.mp hsome
+      have := H3 n' (by simp [hn']) hs
+      rw [hy] at this
+      rw [A.node_mono hext n'.op y this, hext _ hsome, hy]
+    unfold uniqueOps
+    by_cases hc : seen.contains n.id = true
+    · have hs : n.id ∈ seen := by simpa using hc
+      simp only [hc, if_true]
+      have hl : m1.lookup n.id = some x := by rw [← H3 n (by simp) hs]; exact hx
+      refine ih _ m2 seen hcons' ?_ H2 hold h'
+      intro i
+      by_cases e : i = n.id
+      · subst e; rw [lookup_cons_self, ← H1, hl]
+      · rw [lookup_cons_ne i n.id x m1 e, H1]
+    · have hs : n.id ∉ seen := by simpa using hc
+      simp only [hc, Bool.false_eq_true, if_false, foldAlg]
+      rw [← A.node_congr H1 n.op, hx]
+      simp only [Option.bind_some]
+      refine ih _ ((n.id, x) :: m2) (n.id :: seen) hcons' ?_ ?_ ?_ h'
+      · intro i
+        by_cases e : i = n.id
+        · subst e; rw [lookup_cons_self, lookup_cons_self]
+        · rw [lookup_cons_ne i n.id x m1 e, lookup_cons_ne i n.id x m2 e, H1]
+      · intro i
+        by_cases e : i = n.id
+        · subst e; simp [lookup_cons_self]
+        · rw [lookup_cons_ne i n.id x m2 e, ← H2]
+          simp [e]
+      · intro n' hn' hs'
+        simp only [List.mem_cons] at hs'
+        rcases hs' with e | hs'
+        · have hop : n'.op = n.op := hcons n' (by simp [hn']) n (by simp) e
+          rw [hop, e, lookup_cons_self]
+          exact A.node_mono hext n.op x hx
+        · exact hold n' hn' hs'
+
+theorem mem_of_lookup {κ β : Type} [BEq κ] [LawfulBEq κ] (l : List (κ × β)) (k : κ) (x : β)
+    (h : l.lookup k = some x) : (k, x) ∈ l := by
+  induction l with
+  | nil => simp at h
+  | cons p r ih =>
+    obtain ⟨k', y⟩ := p
+    by_cases e : k = k'
+    · subst e
+      rw [lookup_cons_self] at h
+      simp only [Option.some.injEq] at h
+      subst h; simp
+    · rw [lookup_cons_ne k k' y r e] at h
+      exact List.mem_cons_of_mem _ (ih h)
+
+/-- the domain side conditions for every operator of the list -/
+def sdDomAll (ops : OpList) : Bool :=
+  match foldAlg algTree ops [] with
+  | some tm => tm.all fun p => sdDom p.2
+  | none => true
+
+section Main
+variable {α : Type} [Field α] {O : Ops α}
+
+/-- **`reverse_sd` is the formal derivative**, for every well-formed operator list — repeated operators included
+(the repaired code visits each operator once, at its first occurrence). -/
+theorem reverseSd_correct (L : LawfulOps O) (env : Env α) (ops : OpList) (hwf : wellFormed ops = true)
+    (hcons : consistent ops) (e : Expr) (hden : denote ops = some e) (hdom : sdDomAll ops = true)
+    (d : DerMap) (h : reverseSd ops = some d) (v : Nat) (s : SVal) (hj : jacOf d v = some s) :
+    evalS O env s = eval O env (D v e) := by
+  simp only [denote, runAlg, Option.bind_eq_some_iff] at hden
+  obtain ⟨tmO, htmO, last, hlast, hle⟩ := hden
+  obtain ⟨tm, htm, hsame⟩ := foldAlg_unique algTree ops [] [] [] hcons (fun _ => rfl) (by simp) (by simp) tmO htmO
+  obtain ⟨_, hall', hall⟩ := foldAlg_isSome algTree ops [] [] (by simp) hwf
+  rw [htmO] at hall'
+  simp only [Option.some.injEq] at hall'
+  subst hall'
+  have hu := uniqueOps_ids ops []
+  have hdomu : ∀ n ∈ uniqueOps ops [], sdDom (tauOf tm n.id) = true := by
+    intro n hn
+    have hn' := uniqueOps_sub ops [] n hn
+    obtain ⟨t, ht⟩ := Option.isSome_iff_exists.mp (hall n hn')
+    have hmem := mem_of_lookup tmO n.id t ht
+    simp only [sdDomAll, htmO, List.all_eq_true] at hdom
+    simp only [tauOf, ← hsame, ht, Option.getD_some]
+    exact hdom _ hmem
+  have hlm : last ∈ ops := List.mem_of_getLast? hlast
+  have hmem : last.id ∈ (uniqueOps ops []).map (·.id) := by
+    rcases uniqueOps_mem_ids ops [] last hlm with h' | h'
+    · cases h'
+    · exact h'
+  have := reverseSdOn_correct (env := env) (v := v) L ops (uniqueOps ops [])
+    (uniqueOps_wf ops [] [] (fun _ => Iff.rfl) hwf) hu.1 tm htm hdomu last hlast hmem d h s hj
+  rw [this]
+  simp [tauOf, ← hsame, hle]
+
+end Main
+
 end Wntr.Aml
